@@ -51,7 +51,7 @@ func (x pc) witness() map[string]any {
 func TestCheck(t *testing.T) {
 	r := vf.Start(t, "C30", vf.Exploration)
 	defer r.Finish()
-	r.SetRule("Part 1: for several session ids, a table hash -> (protocol id, context) over generated pairs: every split of PRNG strings (p||c fixed, boundary moved: the boundary-shifted family), boundary-shifted families at every scale (one base string of 257..~70k bytes split at i and at i+k for k in {1,2,127..129,255..257,511..513,768,1024,4096,65535..65537}, and with the context length in {0,1,255,256,257,512}: what a too narrow or wrapped length prefix confuses), the design's universe, PRNG pairs, empty/nil contexts, contexts starting with the tail of the id; two different pairs with the same hash = violation; same pair twice must hash equally. Part 2: two real solicitation controllers on two controller buses joined by harness links (fake MountedLinks, in-memory streams, HandleMountedStream dispatch like the transport controller); scenario = per node a PRNG set of SolicitProtocol directives over a small universe (protocol ids / contexts incl. boundary-shifted ones, peer constraint in {none, right, wrong}, transport constraint in {0, right, other link's, wrong}), 1-2 links; static scenarios register all directives (idle) before the links appear, dynamic ones (one third) bring the links up first and then register the directives one by one in a PRNG order. one scenario in four is built around requests on one bus that differ only in the context (empty vs non-empty, prefix of each other) or only in the protocol id, in either registration order, the other node soliciting a PRNG subset of them. Every harness-side request has its own reference and value handler and is judged by its own (p,c,constraints), also when the bus de-duplicates it onto an earlier request's directive (only exception: requests differing in nothing but the transport constraint on a tree that merges them, property C37 - not generated, inconclusive if seen). Oracle (harness ground truth, independent of any hash): directive d on node X receives a value for link L iff d admits L and the other node has a directive with the same (p,c) admitting L; checked at quiescence (all goroutines parked, stream byte counters stable); the 'only if' direction is checked for every directive, the 'if' direction for every directive of a static scenario and for the first registered one per (p,c) and node in a dynamic scenario. Non-trivial = a pure pair whose concatenation equals that of another pair, or a scenario in which at least one match is expected and at least one (p,c)-overlap is refused by a constraint or by differing (p,c); distinct = distinct pair / scenario")
+	r.SetRule("Part 1: for several session ids, a table hash -> (protocol id, context) over generated pairs: every split of PRNG strings (p||c fixed, boundary moved: the boundary-shifted family), boundary-shifted families at every scale (one base string of 257..~70k bytes split at i and at i+k for k in {1,2,127..129,255..257,511..513,768,1024,4096,65535..65537}, and with the context length in {0,1,255,256,257,512}: what a too narrow or wrapped length prefix confuses), the design's universe, PRNG pairs, empty/nil contexts, contexts starting with the tail of the id; two different pairs with the same hash = violation; same pair twice must hash equally. Part 2: two real solicitation controllers on two controller buses joined by harness links (fake MountedLinks, in-memory streams, HandleMountedStream dispatch like the transport controller); scenario = per node a PRNG set of SolicitProtocol directives over a small universe (protocol ids / contexts incl. boundary-shifted ones, peer constraint in {none, right, wrong}, transport constraint in {0, right, other link's, wrong}), 1-2 links; static scenarios register all directives (idle) before the links appear, dynamic ones (one third) bring the links up first and then register the directives one by one in a PRNG order. one scenario in four is built around requests on one bus that differ only in the context (empty vs non-empty, prefix of each other) or only in the protocol id, in either registration order, the other node soliciting a PRNG subset of them. A further block of HISTORY scenarios (own batches) puts two or three families of two/three DIFFERENT requests on ONE node whose (id, context) coincide when joined with a separator-like string (a+sep+b, c) vs (a, b+sep+c), sep taken round-robin from {/ : | NUL space - . , ; _ # = @ + LF TAB // :: NULNUL and the empty string = plain concatenation}, middle part sometimes empty; the other node solicits exactly one member of every family (one time in four: two); histories: static (all before the links), staged (links first; first siblings + early remote requests; process-wide QUIESCENCE; second siblings; QUIESCENCE; third siblings + late remote requests - so the first sibling has been advertised / matched on the link before the second exists, in both sibling orders), together (links first, everything back to back); four fixed staged witnesses around (\"dex/x\",\"y\") / (\"dex\",\"x/y\"). Every harness-side request has its own reference and value handler and is judged by its own (p,c,constraints), also when the bus de-duplicates it onto an earlier request's directive (only exception: requests differing in nothing but the transport constraint on a tree that merges them, property C37 - not generated, inconclusive if seen). Oracle (harness ground truth, independent of any hash): directive d on node X receives a value for link L iff d admits L and the other node has a directive with the same (p,c) admitting L; checked at quiescence (all goroutines parked, stream byte counters stable); the 'only if' direction is checked for every directive, the 'if' direction for every directive of a static scenario and for the first registered one per (p,c) and node in a dynamic scenario. Non-trivial = a pure pair whose concatenation equals that of another pair, or a scenario in which at least one match is expected and at least one (p,c)-overlap is refused by a constraint or by differing (p,c); distinct = distinct pair / scenario")
 
 	purePart(r)
 	g10sol.RunTwoNodeC30(r)
